@@ -238,7 +238,7 @@ func evolveCmd(args []string) int {
 				}
 				if pn := vhu.Guard(func() {
 					plainRoundTrip(g, nil, nil, res)
-					yamlRoundTrip(g, nil, nil, res)
+					yamlRoundTrip(g, nil, nil, !hasNegZero(p), res)
 					orgRoundTrip(g, fit, e, fit/2, oi%2 == 0, nil, nil, res)
 					if oi%5 == 0 {
 						fastRoundTrip(g, nil, nil, res)
